@@ -40,6 +40,8 @@ class AgentSim(sysrun.SymSim):
                 mon.request(self.sid, 'set', time)
                 yield self.mosaik.set_data({f'{self.sid}.e': {f'{target}.e': {'im': val}}})
                 mon.did_set(self.sid, time, target, val)
+        if self.typ == 'event-based':
+            return None     # an idle agent: stepped only when triggered
         d = eng.int(f'{self.sid}.d{k}', 1)
         if k == K - 1:
             eng.assume(time + d >= CTX['until'])
@@ -67,6 +69,7 @@ class Monitor:
         self.refused_expected = []
         self.nset = 0
         self.nsteps = 0
+        self.a_begun = []
 
     def request(self, sid, kind, time):
         if sid not in self.allowed:
@@ -105,12 +108,18 @@ class Monitor:
                     eng.alarm('C16.data', f'A@{time}: set_data values expected {exp}, inputs carry {got}', {'fp': ['data']})
                 for k in [k for k in self.pending if k[0] == 'A']:
                     del self.pending[k]
+            elif sid in self.allowed and self.a_begun:
+                # ... and the other way round: an agent step at t that begins only now must not find A already past t
+                ta = self.a_begun[-1]
+                eng.check(ta <= time, 'C16.order', lambda: f'{sid} begins its step at {time} after A has already begun step {ta}')
+            if sid == 'A':
+                self.a_begun.append(time)
             self.inflight[sid] = time
         if ev == 'reply' and f == 'step':
             self.inflight.pop(sid, None)
 
 
-def async_run(n_agents, unconnected, cfg, data_edge=False):
+def async_run(n_agents, unconnected, cfg, data_edge=False, triggered=False):
     """n_agents agents connected with async_requests; if `unconnected`, one more agent without such a connection
     (variant 'plain': connected by a normal data connection only; 'none': no connection at all)."""
     def h(eng):
@@ -131,8 +140,13 @@ def async_run(n_agents, unconnected, cfg, data_edge=False):
             try:
                 a = w.start('S', sim_id='A', typ='time-based').M()
                 ents = {}
+                if triggered:
+                    # the agents are event-based and triggered by a separate clock simulator T
+                    clock = w.start('S', sim_id='T', typ='time-based').M()
                 for b in agents:
-                    ents[b] = w.start('G', sim_id=b, typ='time-based').M()
+                    ents[b] = w.start('G', sim_id=b, typ='event-based' if triggered else 'time-based').M()
+                    if triggered:
+                        w.connect(clock, ents[b], ('op', 'it'))
                     if data_edge:
                         w.connect(a, ents[b], ('op', 'im'), async_requests=True)
                     else:
@@ -176,13 +190,15 @@ def jobs(tier):
     q = tier == 'quick'
     out = []
 
-    def add(n_agents, unconnected, K, until, syncs, caches=(True, False), data_edge=False, rps=1, D=0, split=None, no_get=False, lazy=True):
+    def add(n_agents, unconnected, K, until, syncs, caches=(True, False), data_edge=False, rps=1, D=0, split=None, no_get=False, lazy=True,
+            triggered=False):
         for sync in syncs:
             for cache in caches:
                 cfg = {'until': until, 'K': K, 'cache': cache, 'lazy': lazy, 'D': D, 'sync': sync, 'requests_per_step': rps, 'no_get': no_get}
-                j = {'id': f"async|n={n_agents}|x={unconnected}|K={K}|until={until}|sync={''.join(sync) or '-'}|cache={int(cache)}|de={int(data_edge)}|rps={rps}|D={D}|ng={int(no_get)}|lazy={int(lazy)}",
+                j = {'id': f"async|n={n_agents}|x={unconnected}|K={K}|until={until}|sync={''.join(sync) or '-'}|cache={int(cache)}|de={int(data_edge)}|rps={rps}|D={D}|ng={int(no_get)}|lazy={int(lazy)}|trig={int(triggered)}",
                      'harness': 'vk.kernels.c16:async_run',
-                     'params': {'n_agents': n_agents, 'unconnected': unconnected, 'cfg': cfg, 'data_edge': data_edge}, 'budget_s': 300}
+                     'params': {'n_agents': n_agents, 'unconnected': unconnected, 'cfg': cfg, 'data_edge': data_edge, 'triggered': triggered},
+                     'budget_s': 300}
                 if split:
                     j['split_depth'] = split
                 out.append(j)
@@ -195,6 +211,9 @@ def jobs(tier):
     add(2, None, 2, 2, [['A', 'B', 'C'], ['A']], caches=(True,), split=16, no_get=True, lazy=False)
     if not q:
         add(2, None, 2, 3, [[], ['A'], ['B', 'C'], ['A', 'B', 'C']], split=16)
+    # event-based agent without own steps, triggered by a clock simulator that may lag behind A
+    add(1, None, 2, 3, [[], ['A'], ['A', 'B']], caches=(True,), lazy=False, triggered=True, no_get=True, split=16)
+    add(1, None, 2, 3, [[], ['A', 'B', 'T']], caches=(True,), lazy=True, triggered=True, no_get=True, split=16)
     add(1, 'none', 2, 2, [[], ['A', 'B', 'X']], caches=(True,))
     add(1, 'plain', 2, 2, [[], ['A', 'B', 'X']], caches=(True,))
     if not q:
